@@ -42,7 +42,7 @@ namespace
         auto set = right.data<d_code, instruction_set>();
 
         frame f(scope, set);
-        runtime.context_active().push_frame(f);
+        runtime.context_active().push_frame(f, true);
         return {};
     }
     value getVariable_namespace_string(runtime& runtime, value::cref left, value::cref right)
